@@ -38,6 +38,21 @@ TRUSTED += [
     "multi-step use (fit then partial_fit / refit / warm start on the same instance) is covered by the end-to-end equality on "
     "two-batch sequences f(A then D) == f(A then clip(D)), not by a theorem about the estimator's state",
 ]
+TRUSTED += [
+    "static tie `clipped before use` (harness/translate/clips.py -> DPL/Generated/C10Clips.lean, decided by "
+    "ClipIR.clippedBeforeUse, meaning: DPL.C10.static_clip_sound): the lowering of Python to the clip IR is trusted, not "
+    "verified - name-based recognition of the clip helpers (clip_to_bounds / self._clip_to_bounds / clip_to_norm / "
+    "self._clip_to_norm; np.histogram(dd)(range=) as the clamp-equivalent range filter), of check_bounds / "
+    "self._check_bounds (declared bounds stay declared only WITHOUT a dtype argument), of re-arrangements (np.ravel, "
+    "np.asarray/np.array/check_array/validate_data incl. their float dtype conversion, .copy(), indexing) and of clip-invariant "
+    "views (.shape/.ndim/.dtype/.size, len, np.isnan, zeros_like, `is None`); EVERY other call is an arbitrary function of all "
+    "its arguments and its receiver (so no list of reductions is needed), but is assumed not to modify its arguments in place "
+    "unless it is a method call statement on that variable; intra-procedural only: a callee is either an entry point with its "
+    "own obligation (data may be handed on raw, its bounds argument must be built from the caller's declared bounds) or opaque; "
+    "aliasing between two local names of one array is not tracked; exception messages are not treated as releases; the "
+    "`if <declared bounds> is None` fallback arm (C11) is outside the skeletons; count_nonzero and PCA._fit_full are listed as "
+    "not covered in the generated file",
+]
 UNPROVED = [
     "clip_to_norm over doubles: ||row|| <= c(1+1e-12) and approximate idempotence are validated on every run, the "
     "theorems clip_norm_le / clip_norm_idem are over R (the bounds-clipping theorems are carrier-independent and hold "
@@ -635,8 +650,9 @@ def gen_data_near(r, n, lo, hi, d, out_p):
     return X
 
 
-def gen_data(r, n, lo, hi, d, out_p, nan_p=0.0):
-    """n x d data (d=0: flat) with out-of-domain fraction out_p"""
+def gen_data(r, n, lo, hi, d, out_p, nan_p=0.0, inf_p=0.0):
+    """n x d data (d=0: flat) with out-of-domain fraction out_p (of which a fraction inf_p is +-inf: its clipped image is
+    the bound itself)"""
     cols = max(d, 1)
     L = np.broadcast_to(np.asarray(lo, dtype=float), (cols,))
     U = np.broadcast_to(np.asarray(hi, dtype=float), (cols,))
@@ -645,7 +661,9 @@ def gen_data(r, n, lo, hi, d, out_p, nan_p=0.0):
         for j in range(cols):
             m = r.u01()
             w = U[j] - L[j]
-            if m < out_p:
+            if m < out_p and inf_p and r.chance(inf_p):
+                X[i, j] = r.choice([math.inf, -math.inf])
+            elif m < out_p:
                 X[i, j] = r.choice([L[j] - r.loguniform(1e-12, 1e3) * max(w, 1e-6), U[j] + r.loguniform(1e-12, 1e3) * max(w, 1e-6),
                                     L[j] - 50.0, U[j] + 50.0, gen.offset_ulps(float(L[j]), -1), gen.offset_ulps(float(U[j]), 1)])
             elif m < out_p + nan_p:
@@ -1046,7 +1064,8 @@ def gen_e2e_case(r, name, family):
         else:
             kind, lo, hi = gen_e2e_bounds(r, 0, min_width=1e-3)
         nan_p = 0.15 if name.startswith("nan") else 0.0
-        X = gen_data(r, n, lo, hi, d, out_p, nan_p)
+        # +-inf records (a third of the cases with out-of-domain data): out of domain like any other, image = the bound
+        X = gen_data(r, n, lo, hi, d, out_p, nan_p, inf_p=r.choice([0.0, 0.0, 0.3]))
         if name in ("quantile", "percentile", "median") and r.chance(0.4):
             # callers of check_bounds(min_separation=1e-5): a narrow window at a large offset must not be widened
             kind, lo, hi = gen_offset_bounds(r, d if axis == 0 else 0)
@@ -1103,7 +1122,11 @@ def gen_e2e_case(r, name, family):
 
 
 TYPED_TOOLS = ["mean", "var", "std", "sum", "nanmean", "nanvar", "nanstd", "nansum", "quantile", "median", "percentile"]
-TYPED_MODELS = {"GaussianNB": ["int64", "int32", "float32"], "KMeans": ["float32"], "StandardScaler": ["float32"]}
+TYPED_MODELS = {"GaussianNB": ["int64", "int32", "float32"], "KMeans": ["float32"], "StandardScaler": ["float32"],
+                # float32 X with bounds float32 cannot represent (0.1, 0.7, -0.3): clipping must use the DECLARED bounds, not
+                # their image in the data type (seeded change C10-15)
+                "LinearRegression": ["float32", "int64"], "LinearRegression-nointercept": ["float32", "int32"],
+                "LinearRegression-multi": ["float32"]}
 SEQ_MODELS = {"GaussianNB": ["fit+partial_fit", "partial_fit+partial_fit"], "StandardScaler": ["fit+partial_fit", "partial_fit+partial_fit"],
               "RandomForestClassifier": ["warm_start"], "KMeans": ["refit"], "LinearRegression": ["refit"],
               "LinearRegression-nointercept": ["refit"], "LinearRegression-multi": ["refit"], "DecisionTreeClassifier": ["refit"],
@@ -1135,6 +1158,10 @@ def add_dtype(r, case):
     else:
         vals = np.array([float(r.randint(c - 4, c + 7)) for _ in range(D.size)]).reshape(D.shape)
     case["D"] = vals.tolist()
+    if dt == "float32" and name.startswith("LinearRegression") and case.get("y") is not None:
+        # LinearRegression converts y to X's data type before clipping: keep the targets exactly representable there, so that
+        # the comparison isolates the clipping (f on float32 data vs f on its float64 clipped image)
+        case["y"] = np.asarray(unjson(case["y"]), dtype=float).astype(np.float32).astype(float).tolist()
     case["dtype"] = dt
     case["bkind"] = (case.get("bkind") or "") + "+" + dt
     if "probe" in case:
@@ -1472,6 +1499,28 @@ def check_e2e(ctx):
         ctx.count(k, n_)
     INFO.clear()
     ctx.sample({"e2e_case": {k: (v if k not in ("D", "y", "probe") else "...") for k, v in cases[10].items()}})
+
+
+def generate(ctx):
+    """static translator tie `clipped before use`: the clip skeleton (clip / re-arrangement / assignment / sink events with
+    their data dependencies and control flow) of every tool and estimator method that receives data with declared bounds is
+    re-extracted from /repo's CURRENT AST and `clippedBeforeUse … = true` is decided in Lean (DPL.C10.static_clip_sound says
+    what that means for every run).  An entry point the translator cannot follow is reported as unavailable (not as a
+    failed obligation)."""
+    import os
+    from ..translate import clips
+    repo = os.environ.get("VERIF_REPO", "/repo")
+    try:
+        info = clips.generate(repo, leanio.LEAN)
+    except (clips.TranslatorError, SyntaxError, OSError) as e:
+        ctx.note(f"clip-skeleton translator unavailable: {type(e).__name__}: {e}")
+        return {"build": [], "obligations": 0, "unavailable": [f"clips: {type(e).__name__}: {e}"[:300]]}
+    ctx.count("clip_skeletons", info["obligations"])
+    ctx.sample({"clip_skeleton_entries": info["entries"], "clip_skeleton_not_covered": info["not_covered"]})
+    out = {"build": ["DPL.Generated.C10Clips"], "obligations": info["obligations"]}
+    if info["unavailable"]:
+        out["unavailable"] = ["clips: " + u[:200] for u in info["unavailable"]]
+    return out
 
 
 def check(ctx):
